@@ -42,7 +42,8 @@ Definition ref_guards : panic_guards := {|
   g_denom := true;
   g_amount := true;
   g_evm_denom := true;
-  g_erc20_nul := true |}.
+  g_erc20_nul := true;
+  g_supply := true |}.
 Definition reference_facts : facts := {|
   f_funtoken := ref_funtoken;
   f_wasm := ref_wasm;
@@ -57,6 +58,10 @@ Definition reference_facts : facts := {|
 Definition sample_body : mid -> list arg -> Z -> Z -> bres Z :=
   fun m _ st _ => if can_mutate m then BOk (st + 1) 1500 else BOk st 1200.
 Definition sample_transfer (st v : Z) : Z := st + 1000.
+Definition sample_after_mint : mid -> list arg -> Z -> Z -> bres Z := fun _ _ st _ => BOk (st + 1) 2500.
+(** sendToBank on an ERC20-born FunToken whose bank supply already is 2^255, minting 2^255 more *)
+Definition whale_body : mid -> list arg -> Z -> Z -> bres Z :=
+  fun m _ st _ => match m with FT_sendToBank => BMint st (2 ^ 255) (2 ^ 255) | _ => BOk st 1200 end.
 (** a body that runs the local gas meter dry *)
 Definition greedy_body : mid -> list arg -> Z -> Z -> bres Z := fun _ _ st _ => BOog st.
 
@@ -75,6 +80,8 @@ Definition bankMsgSend_call (denom : list Z) (amt : Z) : input :=
   call_of 278624872 292 [AStr hex_addr false false; AStr denom false false; AUint amt].
 Definition sendToEvm_call (denom : list Z) (amt : Z) : input :=
   call_of 772831913 292 [AStr denom false false; AUint amt; AStr hex_addr false false].
+Definition sendToBank_call (amt : Z) : input :=
+  call_of 3883550655 228 [AAddr; AUint amt; AStr hex_addr false false].
 Definition whoAmI_call : input := call_of 2099940174 132 [AStr hex_addr false false].
 Definition oracle_query_call : input :=
   call_of 1808896047 100 [AStr (unibi ++ [58; 117; 117; 115; 100]) false false].
